@@ -10,7 +10,8 @@
    comes from the freshly built libcgns.a.
 
    usage: c17_io <dir> <adf|hdf5>        script on stdin:
-     world <kinds> <links>   kinds = csv of ok|missing|garbage|badhdr|dir (file F<i>.cgio has kind number i);
+     world <kinds> <links>   kinds = csv of ok|okL|okB|okE|missing|garbage|badhdr|dir (file F<i>.cgio has kind number i; ok* =
+                             valid files in the NATIVE / LEGACY / IEEE_BIG / IEEE_LITTLE layout);
                              links = csv of a>b (file a has, under its node /D, a link node L<b> to F<b>.cgio:/D) or -
                              (files are created in a forked child; the descriptor baseline is taken afterwards)
      open <n> <r|m>          cgio_open_file(F<n>, mode, CGIO_FILE_NONE)       -> "open ok <cgio number>" | "open err 0"
@@ -25,6 +26,7 @@
 */
 #include "c17_common.c"
 #include "cgns_io.c"
+#include "adf/ADF.h"
 #include "adf/ADF_internals.h"
 
 static char dir[600];
@@ -32,6 +34,30 @@ static int is_h5 = 0;
 static int fd0 = 0;
 
 static void path_of(int n, char *out) { sprintf(out, "%s/F%d.cgio", dir, n); }
+
+/* an ADF file in one of the layouts the library can write: ok = NATIVE, okL = LEGACY ("ADF Database Version A": ASCII-hex
+   disk pointers, 32-bit dimensions), okB = IEEE_BIG, okE = IEEE_LITTLE -- only the ADF core interface takes the format */
+static void make_adf_file(int i, const char *p, const char *kind, const char *links)
+{
+    const char *fmt = !strcmp(kind, "okL") ? "LEGACY" : !strcmp(kind, "okB") ? "IEEE_BIG" : !strcmp(kind, "okE") ? "IEEE_LITTLE" : "NATIVE";
+    char ln[4096], *s2, *e; double root, did, lid; int err;
+    remove(p);
+    ADF_Database_Open(p, "NEW", fmt, &root, &err);
+    if (err != -1) { printf("worldfail adfopen %d %d\n", i, err); exit(3); }
+    ADF_Create(root, "D", &did, &err); ADF_Set_Label(did, "Data_t", &err);
+    ADF_Create(did, "X", &lid, &err); ADF_Set_Label(lid, "Data_t", &err);
+    strncpy(ln, links, sizeof ln - 1); ln[sizeof ln - 1] = 0;
+    for (e = strtok_r(ln, ",", &s2); e; e = strtok_r(NULL, ",", &s2)) {
+        int a, b, dang; char nm[40], fn[40];
+        if (sscanf(e, "%d>%d", &a, &b) != 2 || a != i) continue;
+        dang = e[strlen(e) - 1] == '!';                 /* a>b! : the file F<b> may exist, the stored path never does */
+        sprintf(nm, "%c%d", dang ? 'X' : 'L', b); sprintf(fn, "F%d.cgio", b);
+        ADF_Link(did, nm, fn, dang ? "/Nope" : "/D", &lid, &err);
+        if (err != -1) { printf("worldfail link %d>%d %d\n", a, b, err); exit(3); }
+    }
+    ADF_Database_Close(root, &err);
+    if (err != -1) { printf("worldfail adfclose %d %d\n", i, err); exit(3); }
+}
 
 static void make_world(char *kinds, char *links)
 {
@@ -48,9 +74,10 @@ static void make_world(char *kinds, char *links)
     }
     for (i = 0; i < nk; i++) {
         char p[700], ln[4096], *s2, *e; int c; double root, did, lid;
-        if (strcmp(k[i], "ok")) continue;
+        if (strncmp(k[i], "ok", 2)) continue;
         path_of(i, p);
-        if (cgio_open_file(p, 'w', is_h5 ? CGIO_FILE_HDF5 : CGIO_FILE_ADF, &c)) { printf("worldfail open %d\n", i); exit(3); }
+        if (!is_h5) { make_adf_file(i, p, k[i], links); continue; }
+        if (cgio_open_file(p, 'w', CGIO_FILE_HDF5, &c)) { printf("worldfail open %d\n", i); exit(3); }
         cgio_get_root_id(c, &root);
         if (cgio_create_node(c, root, "D", &did) || cgio_set_label(c, did, "Data_t") ||
             cgio_create_node(c, did, "X", &lid) || cgio_set_label(c, lid, "Data_t")) { printf("worldfail node %d\n", i); exit(3); }
@@ -96,6 +123,11 @@ static void dump_state(void)
                ADF_file[i].in_use ? name_id(ADF_file[i].file_name) : -1);
         if (ADF_file[i].in_use == 0 || ADF_file[i].nlinks == 0) printf("-");
         else for (j = 0; j < ADF_file[i].nlinks; j++) printf("%s%u", j ? "," : "", ADF_file[i].links[j]);
+        /* the per-file attributes of an entry in use: old_version, format, os_size, link_separator, version update pending */
+        if (ADF_file[i].in_use) printf(":%d%c%c%c%d", ADF_file[i].old_version, ADF_file[i].format ? ADF_file[i].format : '0',
+                                       ADF_file[i].os_size ? ADF_file[i].os_size : '0',
+                                       ADF_file[i].link_separator == ' ' ? '_' : ADF_file[i].link_separator, ADF_file[i].version_update[0] != 0);
+        else printf(":-");
     }
     if (maximum_files == 0) printf("-");
     printf(" | fds %d h5 %ld\n", fd_count() - fd0, h5_count());
